@@ -103,7 +103,8 @@ def _one(args):
         ph0 = D.project_members(members, st)
         ph0["kind"] = kind
         tr = D.run_trace(Package.open, src, st)
-        tr.update({"id": "%d/%s" % (k, form), "form": form, "ph0": ph0, "model": ph})
+        tr.update({"id": "%d/%s" % (k, form), "form": form, "ph0": ph0, "model": ph, "api": False,
+                   "slidesExp": [], "slidesSeen": [], "slidesReopen": [], "slidesSTS": []})
         tr["segs_len"] = len(st.table())
         tr["_segs"] = st.table()
         out.append(tr)
